@@ -170,7 +170,32 @@ def eval_grammar(case, Filter):
     if real[0] == 'ok' and case['mode'] == 'topics' and isinstance(real[1][1], (list, tuple)):
         real = ('ok', (real[1][0], [tuple(p) for p in real[1][1]]))       # pairs as tuples or as lists: both fine
     ok = real[0] == 'ok' and tuple(real[1]) == expect
+    if ok and case['mode'] != 'topics':
+        # the value belongs to the caller (normalisers merge options into it in place): after the caller has written into
+        # it, parsing the same text again must still give the rendered value
+        scribble(real[1])
+        again = call(Filter.parse_options if not x['maps'] else (lambda t: real_entry(Filter, t)), text)
+        if not (again[0] == 'ok' and tuple(again[1]) == expect):
+            return {'ok': False, 'text': text, 'real': again, 'expect': expect,
+                    'note': 'second parse of the same text, after the caller modified the first result in place'}
     return {'ok': ok, 'text': text, 'real': real, 'expect': expect}
+
+
+def scribble(o, _depth=0):
+    """write into every mutable container reachable from o (what a caller that owns the value may do)"""
+    if isinstance(o, dict):
+        for v in list(o.values()):
+            scribble(v, _depth + 1)
+        if _depth:
+            o['__scribbled__'] = 1
+    elif isinstance(o, list):
+        for v in o:
+            scribble(v, _depth + 1)
+        if _depth:
+            o.append('__scribbled__')
+    elif isinstance(o, tuple):
+        for v in o:
+            scribble(v, _depth + 1)
 
 
 def without_eql(case):
@@ -348,6 +373,8 @@ def eval_forms(N, forms, modulo=None):
             problems.append(('idempotence', name, f'second normalisation raised {r2[1]}'))
         elif r2[1] != snap:
             problems.append(('idempotence', name, f'N(N(c)) = {r2[1]!r} but N(c) = {snap!r}'))
+        # the normalised configuration belongs to the caller: whatever it does to it must not reach later normalisations
+        scribble([n1, r2[1] if r2[0] == 'ok' else None])
     oks = {k: v[1] for k, v in normal.items() if v[0] == 'ok'}
     bad = {k: v[1] for k, v in normal.items() if v[0] != 'ok'}
     if oks and bad:
@@ -859,7 +886,14 @@ def run(ctx):
         'code_conforms_to': ('Defects = {} (the documented design)' if not tally.counts else
                              f'Defects = {{{DEFECT}}}' if n_dev == n_model and all(
                                  '"passes_without_ws_before_eq": true' in k for k in tally.counts) else 'neither: see witnesses')}
-    rep.extra['selftest'] = selftest(K, data)
+    try:
+        rep.extra['selftest'] = selftest(K, data)
+    except MachineryError as e:
+        # the self-test evaluates a conforming vector and a corrupted one on the real code: on a tree that already violates
+        # the property the "conforming" half may fail for that reason - the witnesses stand, the self-test is void
+        if not rep.violations:
+            raise
+        rep.extra['selftest'] = f'void on a violating tree: {e}'
     rep.exhaustive = True
     # one witness per distinct signature first (Report.finish writes out only the first few witnesses)
     seen, first, rest = set(), [], []
